@@ -54,6 +54,11 @@ def run(sh):
             al = G.alphabet(rng, rng.range(3, 5))
             A = G.selector_list(rng, al) if rng.chance(0.6) else G.complex_(rng, al)
             B = G.selector_list(rng, al) if rng.chance(0.4) else G.complex_(rng, al)
+            if rng.chance(0.35):
+                # structurally related pair (one edit apart), in either role
+                B = G.related(rng, al, A)
+                if rng.chance(0.5):
+                    A, B = B, A
             cases.append((al, A, B))
         exprs = []
         for al, A, B in cases:
